@@ -38,7 +38,8 @@ func Family(quick bool) []*wm.World {
 		{{CIDR: "10.0.0.0/24"}},
 		{{CIDR: "10.0.2.0/24"}},
 	}
-	ports := [][]wm.NPPort{nil, {{HasPort: true, Num: 80}}, {{HasPort: true, Num: 80}, {HasPort: true, Num: 53, Proto: "UDP"}}}
+	// the last two differ only in the lower end of one range
+	ports := [][]wm.NPPort{nil, {{HasPort: true, Num: 80}}, {{HasPort: true, Num: 80}, {HasPort: true, Num: 53, Proto: "UDP"}}, {{HasPort: true, Num: 80, End: 90}}, {{HasPort: true, Num: 85, End: 90}}}
 	for ti, t := range topos {
 		res = append(res, &wm.World{WLs: t})
 		for pi, ps := range peersets {
@@ -59,6 +60,9 @@ func Family(quick bool) []*wm.World {
 			}
 		}
 	}
+	// manifest sets without any workload (a Namespace and a policy only; a Namespace only)
+	res = append(res, &wm.World{NSs: []wm.NS{{Name: "ns1", Labels: map[string]string{"team": "a"}, HasObj: true}}, NPs: []wm.NP{{NS: "ns1", Name: "p", PodSel: wm.Sel{}, Types: []string{"Ingress"}}}},
+		&wm.World{NSs: []wm.NS{{Name: "ns1", Labels: map[string]string{"team": "a"}, HasObj: true}}})
 	// admin-policy worlds
 	all := &wm.Sel{}
 	for _, t := range topos[:3] {
